@@ -169,7 +169,7 @@ _CC = 'pero_ocr/char_confidences.py'
 def canaries(tier):
     q = [t for t in tasks('quick')]
     return [
-        {'name': 'repeat mask shifted (best[:, :-1] instead of best[:, 1:])', 'patches': [(_E, '        best = best[:, 1:]\n', '        best = best[:, :-1]\n')], 'tasks': q},
+        {'name': 'repeat mask shifted (best[:, :-1] instead of best[:, 1:])', 'patches': [(_E, '    best = best[:, 1:]\n', '    best = best[:, :-1]\n')], 'tasks': q},
         {'name': 'class shift dropped', 'patches': [(_E, 'best = torch.argmax(scores_probs, 1) + 1', 'best = torch.argmax(scores_probs, 1)')], 'tasks': q, 'error_counts': True},
         {'name': 'forced blank frame not forced (first frame non-blank lost when equal to itself)',
          'patches': [(_E, '        scores_probs[:, -1, 0] = 1000\n', '')], 'tasks': q},
